@@ -205,4 +205,90 @@ theorem td_update (kv : Callback K K) (vv : Callback V V) (d : Dict K V) (ps : L
     cases ha : (updLoop d ps' {}).added <;> cases hc : (updLoop d ps' {}).changed <;>
       simp [hs, summarize, summaryOfStep, TraitDict.step, updateLike, hvp, builtinSup, Dict.step, ha, hc]
 
+theorem td_ior (kv : Callback K K) (vv : Callback V V) (d : Dict K V) (ps : List (K × V)) :
+    runTDM kv vv "__ior__" [.pairs ps] d = summaryOfStep d (TraitDict.step kv vv d (.ior ps)) := by
+  simp [runTraitDictM, Generated.traitDictProg, lookupFn, bindArgs, evalDefault]
+  generalize hB : Stmt.seq (Stmt.validate Which.key 7 (Expr.var 5)) _ = B
+  simp [exec, eval, evalAll, getVar, setVar, truthy]
+  have hF : BodySpec kv vv d [] (.pairs ps) (.pairs ps) [none]
+      (fun s => exec { kv := kv, vv := vv, sup := builtinSup } B s) := by
+    subst hB; body_spec d
+  have hl := loop_spec kv vv d [] (.pairs ps) (.pairs ps) [none] _ hF ps {} 0 none none none none none none
+  simp only [lstate, lframe] at hl
+  cases hvp : valPairs kv vv 0 ps with
+  | error e =>
+    obtain ⟨st', hs, hd, he⟩ := hl.1 e hvp
+    simp [hs, summarize, hd, he, summaryOfStep, TraitDict.step, updateLike, hvp]
+  | ok ps' =>
+    obtain ⟨j5, j6, j7, j8, j9, j10, hs⟩ := hl.2 ps' hvp
+    cases ha : (updLoop d ps' {}).added <;> cases hc : (updLoop d ps' {}).changed <;>
+      simp [hs, summarize, summaryOfStep, TraitDict.step, updateLike, hvp, builtinSup, Dict.step, ha, hc,
+        valOfRet, setVar, getVar]
+
+/-- A mapping argument (`other.items()` is taken) behaves like the iterable of its items. -/
+theorem td_update_mapping (kv : Callback K K) (vv : Callback V V) (d m : Dict K V) :
+    runTDM kv vv "update" [.dict m] d = runTDM kv vv "update" [.pairs m] d := by
+  simp [runTraitDictM, Generated.traitDictProg, lookupFn, bindArgs, evalDefault]
+  generalize hB : Stmt.seq (Stmt.validate Which.key 7 (Expr.var 5)) _ = B
+  simp [exec, eval, evalAll, getVar, setVar, truthy]
+  have hF1 : BodySpec kv vv d [] (.dict m) (.pairs m) []
+      (fun s => exec { kv := kv, vv := vv, sup := builtinSup } B s) := by
+    subst hB; body_spec d
+  have hF2 : BodySpec kv vv d [] (.pairs m) (.pairs m) []
+      (fun s => exec { kv := kv, vv := vv, sup := builtinSup } B s) := by
+    subst hB; body_spec d
+  have hl1 := loop_spec kv vv d [] (.dict m) (.pairs m) [] _ hF1 m {} 0 none none none none none none
+  have hl2 := loop_spec kv vv d [] (.pairs m) (.pairs m) [] _ hF2 m {} 0 none none none none none none
+  simp only [lstate, lframe] at hl1 hl2
+  cases hvp : valPairs kv vv 0 m with
+  | error e =>
+    obtain ⟨s1, hs1, hd1, he1⟩ := hl1.1 e hvp
+    obtain ⟨s2, hs2, hd2, he2⟩ := hl2.1 e hvp
+    simp [hs1, hs2, summarize, hd1, he1, hd2, he2]
+  | ok ps' =>
+    obtain ⟨a5, a6, a7, a8, a9, a10, hs1⟩ := hl1.2 ps' hvp
+    obtain ⟨b5, b6, b7, b8, b9, b10, hs2⟩ := hl2.2 ps' hvp
+    cases ha : (updLoop d ps' {}).added <;> cases hc : (updLoop d ps' {}).changed <;>
+      simp [hs1, hs2, summarize, builtinSup, Dict.step, ha, hc, getVar]
+
+theorem td_ior_mapping (kv : Callback K K) (vv : Callback V V) (d m : Dict K V) :
+    runTDM kv vv "__ior__" [.dict m] d = runTDM kv vv "__ior__" [.pairs m] d := by
+  simp [runTraitDictM, Generated.traitDictProg, lookupFn, bindArgs, evalDefault]
+  generalize hB : Stmt.seq (Stmt.validate Which.key 7 (Expr.var 5)) _ = B
+  simp [exec, eval, evalAll, getVar, setVar, truthy]
+  have hF1 : BodySpec kv vv d [] (.dict m) (.pairs m) [none]
+      (fun s => exec { kv := kv, vv := vv, sup := builtinSup } B s) := by
+    subst hB; body_spec d
+  have hF2 : BodySpec kv vv d [] (.pairs m) (.pairs m) [none]
+      (fun s => exec { kv := kv, vv := vv, sup := builtinSup } B s) := by
+    subst hB; body_spec d
+  have hl1 := loop_spec kv vv d [] (.dict m) (.pairs m) [none] _ hF1 m {} 0 none none none none none none
+  have hl2 := loop_spec kv vv d [] (.pairs m) (.pairs m) [none] _ hF2 m {} 0 none none none none none none
+  simp only [lstate, lframe] at hl1 hl2
+  cases hvp : valPairs kv vv 0 m with
+  | error e =>
+    obtain ⟨s1, hs1, hd1, he1⟩ := hl1.1 e hvp
+    obtain ⟨s2, hs2, hd2, he2⟩ := hl2.1 e hvp
+    simp [hs1, hs2, summarize, hd1, he1, hd2, he2]
+  | ok ps' =>
+    obtain ⟨a5, a6, a7, a8, a9, a10, hs1⟩ := hl1.2 ps' hvp
+    obtain ⟨b5, b6, b7, b8, b9, b10, hs2⟩ := hl2.2 ps' hvp
+    cases ha : (updLoop d ps' {}).added <;> cases hc : (updLoop d ps' {}).changed <;>
+      simp [hs1, hs2, summarize, builtinSup, Dict.step, ha, hc, getVar, setVar, valOfRet]
+
+/-- **`Map.TraitDict.step` is the interpretation of the translated source**, for
+every validator pair, dict and operation. -/
+theorem td_step_is_source (kv : Callback K K) (vv : Callback V V) (d : Dict K V) (op : Op K V) :
+    runTraitDictOp Generated.traitDictProg kv vv d op = summaryOfStep d (TraitDict.step kv vv d op) := by
+  cases op with
+  | setitem k v => exact td_setitem kv vv d k v
+  | delitem k => exact td_delitem kv vv d k
+  | update ps => exact td_update kv vv d ps
+  | ior ps => exact td_ior kv vv d ps
+  | setdefault k v => exact td_setdefault kv vv d k v
+  | pop k => exact td_pop kv vv d k
+  | popDefault k dflt => exact td_popDefault kv vv d k dflt
+  | popitem => exact td_popitem kv vv d
+  | clear => exact td_clear kv vv d
+
 end TraitsVerif.Lemmas.PyLMD
